@@ -14,6 +14,7 @@ package indexing
 //@   ensures pass.Pkg != nil ==> len(result) >= 1 && result[0].fst == pass.Pkg && result[0].snd == packageAnnotations
 //@   ensures forall k int :: 1 <= k && k < len(result) ==> result[k].snd != nil && fresh(result[k].snd) && result[k].snd != packageAnnotations
 //@   ensures pass.ImportPackageFact == nil ==> len(result) <= 1
+//@   ensures forall k int :: 0 <= k && k < len(result) ==> result[k].fst != nil && result[k].snd != nil
 //@   let tag = createdTag(nil)
 //@   let imports = pass.Pkg.Imports()
 //@   ensures forall k int :: 1 <= k && k < len(result) ==> (exists j int :: 0 <= j && j < len(imports) && result[k].fst == imports[j] && hasFact(pass, imports[j], tag) && *result[k].snd == factAnn(pass, imports[j], tag))
@@ -21,6 +22,7 @@ package indexing
 //@   assigns nothing
 //@   loop 1 invariant forall k int :: 1 <= k && k < len($yielded) ==> (exists j int :: 0 <= j && j < $i && $yielded[k].fst == imports[j] && hasFact(pass, imports[j], tag) && *$yielded[k].snd == factAnn(pass, imports[j], tag))
 //@   loop 1 invariant forall j int :: 0 <= j && j < $i && hasFact(pass, imports[j], tag) ==> (exists k int :: 1 <= k && k < len($yielded) && $yielded[k].fst == imports[j])
+//@   loop 1 invariant forall k int :: 0 <= k && k < len($yielded) ==> $yielded[k].fst != nil && $yielded[k].snd != nil
 //@   loop 1 invariant !$stopped && len($yielded) >= 1 && $yielded[0].fst == pass.Pkg && $yielded[0].snd == packageAnnotations
 //@   loop 1 invariant forall k int :: 1 <= k && k < len($yielded) ==> $yielded[k].snd != nil && fresh($yielded[k].snd) && $yielded[k].snd != packageAnnotations
 
@@ -55,11 +57,18 @@ package indexing
 //@ macro func srcImport(pass *analysis.Pass, j int, p string) bool = pass.Pkg != nil && pass.ImportPackageFact != nil && 0 <= j && j < len(pass.Pkg.Imports()) && hasFact(pass, pass.Pkg.Imports()[j], createdTag(nil)) && pass.Pkg.Imports()[j].Path() == p
 //@ macro func impAnn(pass *analysis.Pass, j int) PackageAnnotations = factAnn(pass, pass.Pkg.Imports()[j], createdTag(nil))
 
+// Relations "declared by this package or by a direct import with a fact" (what the indices must contain):
+//@ macro func ctorDeclared(pass *analysis.Pass, local *annotations.PackageAnnotations, p string, t string, x string) bool = (srcLocal(pass, p) && ctorHas(*local, t, x)) || (exists j int :: srcImport(pass, j, p) && ctorHas(impAnn(pass, j), t, x))
+//@ macro func mutDeclared(pass *analysis.Pass, local *annotations.PackageAnnotations, p string, t string, x string) bool = (srcLocal(pass, p) && mutHas(*local, t, x)) || (exists j int :: srcImport(pass, j, p) && mutHas(impAnn(pass, j), t, x))
+//@ macro func toTypeDeclared(pass *analysis.Pass, local *annotations.PackageAnnotations, p string, t string) bool = (srcLocal(pass, p) && toTypeHas(*local, t)) || (exists j int :: srcImport(pass, j, p) && toTypeHas(impAnn(pass, j), t))
+//@ macro func toFuncDeclared(pass *analysis.Pass, local *annotations.PackageAnnotations, p string, t string, x string) bool = (srcLocal(pass, p) && toFuncHas(*local, t, x)) || (exists j int :: srcImport(pass, j, p) && toFuncHas(impAnn(pass, j), t, x))
+//@ macro func toMethDeclared(pass *analysis.Pass, local *annotations.PackageAnnotations, p string, t string, x string) bool = (srcLocal(pass, p) && toMethHas(*local, t, x)) || (exists j int :: srcImport(pass, j, p) && toMethHas(impAnn(pass, j), t, x))
+
 //@ func BuildConstructorIndex
 //@   props C06 C01 C02 C09 C10
 //@   requires pass != nil && packageAnnotations != nil
 //@   ensures tarWF(result)
-//@   ensures forall p string, t string, x string :: contains(tarList(result, p, t), x) <==> ((srcLocal(pass, p) && ctorHas(*packageAnnotations, t, x)) || (exists j int :: srcImport(pass, j, p) && ctorHas(impAnn(pass, j), t, x)))
+//@   ensures forall p string, t string, x string :: contains(tarList(result, p, t), x) <==> ctorDeclared(pass, packageAnnotations, p, t, x)
 //@   assigns nothing
 //@   loop 1 frame
 //@   loop 2 frame
@@ -75,7 +84,7 @@ package indexing
 //@   props C06 C01 C09 C10
 //@   requires pass != nil && packageAnnotations != nil
 //@   ensures tarWF(result)
-//@   ensures forall p string, t string, x string :: contains(tarList(result, p, t), x) <==> ((srcLocal(pass, p) && mutHas(*packageAnnotations, t, x)) || (exists j int :: srcImport(pass, j, p) && mutHas(impAnn(pass, j), t, x)))
+//@   ensures forall p string, t string, x string :: contains(tarList(result, p, t), x) <==> mutDeclared(pass, packageAnnotations, p, t, x)
 //@   assigns nothing
 //@   loop 1 frame
 //@   loop 2 frame
@@ -88,7 +97,7 @@ package indexing
 //@   props C06 C03 C09 C10
 //@   requires pass != nil && packageAnnotations != nil
 //@   ensures tarWF(result)
-//@   ensures forall p string, t string, x string :: contains(tarList(result, p, t), x) <==> ((srcLocal(pass, p) && toFuncHas(*packageAnnotations, t, x)) || (exists j int :: srcImport(pass, j, p) && toFuncHas(impAnn(pass, j), t, x)))
+//@   ensures forall p string, t string, x string :: contains(tarList(result, p, t), x) <==> toFuncDeclared(pass, packageAnnotations, p, t, x)
 //@   assigns nothing
 //@   loop 1 frame
 //@   loop 2 frame
@@ -101,7 +110,7 @@ package indexing
 //@   props C06 C03 C09 C10
 //@   requires pass != nil && packageAnnotations != nil
 //@   ensures tarWF(result)
-//@   ensures forall p string, t string, x string :: contains(tarList(result, p, t), x) <==> ((srcLocal(pass, p) && toMethHas(*packageAnnotations, t, x)) || (exists j int :: srcImport(pass, j, p) && toMethHas(impAnn(pass, j), t, x)))
+//@   ensures forall p string, t string, x string :: contains(tarList(result, p, t), x) <==> toMethDeclared(pass, packageAnnotations, p, t, x)
 //@   assigns nothing
 //@   loop 1 frame
 //@   loop 2 frame
@@ -114,7 +123,7 @@ package indexing
 //@   props C06 C03 C09 C10
 //@   requires pass != nil && packageAnnotations != nil
 //@   ensures tmWF(result)
-//@   ensures forall p string, t string :: tmHas(result, p, t) <==> ((srcLocal(pass, p) && toTypeHas(*packageAnnotations, t)) || (exists j int :: srcImport(pass, j, p) && toTypeHas(impAnn(pass, j), t)))
+//@   ensures forall p string, t string :: tmHas(result, p, t) <==> toTypeDeclared(pass, packageAnnotations, p, t)
 //@   assigns nothing
 //@   loop 1 frame
 //@   loop 2 frame
